@@ -335,7 +335,19 @@ class _Run:
                 self.stats["fault:client-task-cancel-scheduled"] += 1
             abandon_after = t.draw(3, "abandon-after") if fk == 2 else None
             try:
-                if md.client_streaming:
+                pingpong = None
+                if md.client_streaming and md.server_streaming and fk == 0 and c.overridden and t.draw(5, "ping-pong?") == 4:
+                    # the README idiom: an AsyncChannel fed by the caller itself as responses arrive -
+                    # request k+1 is only sent once response k has been received
+                    pingpong = AsyncChannel()
+                    c.src_kind = "AsyncChannel-ping-pong"
+                    if c.reqs:
+                        await pingpong.send(c.reqs[0])
+                    else:
+                        pingpong.close()
+                    arg = pingpong
+                    self.stats["probe:ping-pong-bidi-call"] += 1
+                elif md.client_streaming:
                     src, c.src_kind, feeder = self._request_source(c)
                     arg = src
                 else:
@@ -344,6 +356,12 @@ class _Run:
                     it = method(arg, **kwargs)
                     async for resp in it:
                         c.received.append(resp)
+                        if pingpong is not None:
+                            n_got = len(c.received)
+                            if n_got < len(c.reqs):
+                                await pingpong.send(c.reqs[n_got])
+                            elif n_got == len(c.reqs):
+                                pingpong.close()
                         if abandon_after is not None and len(c.received) > abandon_after:
                             break
                         await self.pause("cli-read-pause")
@@ -817,7 +835,7 @@ class GrpcSim(Simulator):
     expected_probes = ["probe:unimplemented-call", "probe:handler-error-reached-caller",
                        "probe:call-level-timeout-overrides-stub-level", "probe:call-level-metadata-overrides-stub-level",
                        "probe:call-level-deadline-overrides-stub-level", "probe:request-stream-from-AsyncChannel",
-                       "probe:message-larger-than-h2-window", "probe:tcp-resegmented-writes"]
+                       "probe:message-larger-than-h2-window", "probe:tcp-resegmented-writes", "probe:ping-pong-bidi-call"]
 
     def __init__(self):
         self.generated = []
